@@ -35,7 +35,9 @@ import (
 //     defs = hex of the JSON text of c20Defs (exception rule sets and rule conditions)
 //     excbits / rulebits are the results of RuleSet.Match / DoIfChecker.Check (library oracles
 //     evaluated by the generator); exec re-evaluates them and answers bad-case if they differ.
-//   result: per op `0|1` (IsSpam) or `B <dump> A <dump>` (Dump, Maintenance, Dump); then `D <dump>`
+//   result: per op `0|1` (IsSpam) or `B <counters> A <counters>` (all source counters before and
+//   after Maintenance, verif accessor VerifCounters); then `D <dump>` (public Dump(): sources whose
+//   counter >= the default threshold)
 //
 // c20.in <max> <cut> <field> <j|r> <asThr> <intervalNs> <metaField> <nExc> <checkSourceName>… <defs>
 //        <nRecs> rec…
@@ -219,6 +221,22 @@ func c20Dump(tag string, a *antispam.Antispammer) string {
 	return sb.String()
 }
 
+// c20Counters: every source entry with its counter (verif accessor), sorted by id.
+func c20Counters(tag string, a *antispam.Antispammer) string {
+	m := a.VerifCounters()
+	ids := make([]string, 0, len(m))
+	for id := range m {
+		ids = append(ids, id)
+	}
+	sort.Strings(ids)
+	var sb strings.Builder
+	fmt.Fprintf(&sb, "%s %d", tag, len(ids))
+	for _, id := range ids {
+		fmt.Fprintf(&sb, " %s %d", hx.Enc([]byte(id)), m[id])
+	}
+	return sb.String()
+}
+
 func c20NewAntispammer(thr, unban int, interval int64, exc antispam.Exceptions, rules antispam.Rules) *antispam.Antispammer {
 	return antispam.NewAntispammer(&antispam.Options{
 		MaintenanceInterval: time.Duration(interval),
@@ -271,9 +289,9 @@ func execC20Spam(t *hx.Toks) string {
 	for i := 0; i < nOps; i++ {
 		switch t.Next() {
 		case "m":
-			b := c20Dump("B", a)
+			b := c20Counters("B", a)
 			a.Maintenance()
-			out = append(out, b, c20Dump("A", a))
+			out = append(out, b, c20Counters("A", a))
 		case "e":
 			id := string(t.Bytes())
 			name := string(t.Bytes())
